@@ -55,21 +55,27 @@ type Ctx struct {
 	Tier string
 	Seed int64
 
-	prefix   []int
-	choices  []int
-	points   []point
-	log      []string
-	keepLog  bool
-	obs      [32]byte
-	obsN     int
-	fails    []Failure
-	trivial  bool
-	counters map[string]int64
-	history  []int // set when replaying a BFS history
-	noRerun  bool  // the body is an explicit-state search; never re-run it for samples
-	bfs      *bfsStats
-	st       *Stats
-	scen     *Scenario
+	prefix    []int
+	choices   []int
+	points    []point
+	log       []string
+	keepLog   bool
+	obs       [32]byte
+	obsN      int
+	fails     []Failure
+	trivial   bool
+	counters  map[string]int64
+	history   []int // set when replaying a BFS history
+	noRerun   bool  // the body is an explicit-state search; never re-run it for samples
+	cost      int   // deviation cost spent so far in this execution
+	bound     int
+	pruneFrom int // choice points from this index on are not branched (state already visited)
+	visited   map[string]int
+	lenient   bool // replay of a recorded file: a schedule that no longer fits is reported, not fatal
+	diverged  bool
+	bfs       *bfsStats
+	st        *Stats
+	scen      *Scenario
 }
 
 // Choose asks for one of n answers; 0 is the default, 1..n-1 cost one
@@ -122,6 +128,10 @@ func (c *Ctx) choose(kind string, n int, costs []int) int {
 	ch := 0
 	if i < len(c.prefix) {
 		ch = c.prefix[i]
+		if (ch < 0 || ch >= n) && c.lenient {
+			c.diverged = true
+			ch = 0
+		}
 		if ch < 0 || ch >= n {
 			c.fatalDivergence(fmt.Sprintf("replay divergence at point %d (%s): recorded choice %d but only %d alternatives", i, kind, ch, n))
 		}
@@ -132,10 +142,31 @@ func (c *Ctx) choose(kind string, n int, costs []int) int {
 	}
 	c.choices = append(c.choices, ch)
 	c.points = append(c.points, point{kind, n, costs})
+	c.cost += c.points[len(c.points)-1].cost(ch)
 	if c.keepLog {
 		c.log = append(c.log, fmt.Sprintf("choose[%d] %s %d/%d", i, kind, ch, n))
 	}
 	return ch
+}
+
+// Prune is called by a harness (or the scheduler) immediately before a choice
+// point with a key that canonically identifies the complete global state
+// (everything that determines the future behaviour and the oracle verdict).
+// If that state was already reached with at least as much deviation budget
+// left, the alternatives of this and all later choice points of this
+// execution were explored from there and are not branched again.
+func (c *Ctx) Prune(key string) {
+	if c.visited == nil || len(c.choices) < len(c.prefix) || c.pruneFrom <= len(c.points) {
+		return
+	}
+	rem := c.bound - c.cost
+	if old, ok := c.visited[key]; ok && old >= rem {
+		c.pruneFrom = len(c.points)
+		c.st.Counters["pruned_revisits"]++
+		return
+	}
+	c.visited[key] = rem
+	c.st.Counters["distinct_global_states"]++
 }
 
 // Observe folds (key,value) into the outcome fingerprint of this execution.
@@ -195,6 +226,9 @@ type Scenario struct {
 	Run    func(c *Ctx)
 	// Weight is a hint for sharding (bigger = more expensive); default 1.
 	Weight int
+	// NoIterate explores directly at Bound instead of iterating 0..Bound
+	// (for state-pruned scenarios whose whole space is small).
+	NoIterate bool
 }
 
 // Violation is a reproducible failing execution.
@@ -251,6 +285,9 @@ type explorer struct {
 	// executions at this bound level
 	execs int64
 	stop  bool
+	// lenient replay (see Ctx.lenient)
+	lenient bool
+	visited map[string]int // global-state key -> largest remaining budget it was expanded with
 }
 
 // Config is the parsed command line of a harness binary.
@@ -297,7 +334,7 @@ func startWatchdog() {
 }
 
 func (e *explorer) newCtx(prefix []int, keepLog bool) *Ctx {
-	return &Ctx{Tier: e.cfg.Tier, Seed: e.cfg.Seed, prefix: prefix, keepLog: keepLog,
+	return &Ctx{lenient: e.lenient, bound: e.bound, visited: e.visited, pruneFrom: 1 << 60, Tier: e.cfg.Tier, Seed: e.cfg.Seed, prefix: prefix, keepLog: keepLog,
 		counters: e.st.Counters, st: e.st, scen: e.sc}
 }
 
@@ -328,7 +365,9 @@ func (e *explorer) runOnce(prefix []int, keepLog bool, history []int) (c *Ctx) {
 		}
 	}()
 	e.sc.Run(c)
-	if len(c.choices) < len(prefix) {
+	if len(c.choices) < len(prefix) && c.lenient {
+		c.diverged = true
+	} else if len(c.choices) < len(prefix) {
 		c.fatalDivergence(fmt.Sprintf("replay divergence: execution ended after %d choice points, prefix has %d", len(c.choices), len(prefix)))
 	}
 	return c
@@ -432,11 +471,11 @@ func (e *explorer) explore(prefix []int, prefixCost int) {
 		return
 	}
 	c := e.runOnce(prefix, false, nil)
-	if prefixCost == e.bound {
+	if prefixCost == e.bound || e.sc.NoIterate {
 		e.account(c, len(prefix))
 	}
 	choices, points := c.choices, c.points
-	for i := len(prefix); i < len(points); i++ {
+	for i := len(prefix); i < len(points) && i < c.pruneFrom; i++ {
 		p := &points[i]
 		for alt := 1; alt < p.n; alt++ {
 			cost := prefixCost + p.cost(alt)
@@ -634,7 +673,10 @@ func Main(property string, gen func(cfg *Config, emit func(Scenario))) {
 		st.Scenarios++
 		completed := -1
 		for b := 0; b <= sc.Bound; b++ {
-			e := &explorer{sc: sc, st: st, cfg: cfg, bound: b}
+			if sc.NoIterate && b < sc.Bound {
+				continue
+			}
+			e := &explorer{sc: sc, st: st, cfg: cfg, bound: b, visited: map[string]int{}}
 			// iterative bounding: level b re-runs the cheaper executions
 			// to find their branching points but only accounts (and
 			// checks) executions of cost exactly b.
@@ -707,10 +749,13 @@ func replayFile(cfg *Config, st *Stats, scs []Scenario) int {
 		if scs[i].Name != v.Scenario {
 			continue
 		}
-		e := &explorer{sc: &scs[i], st: st, cfg: cfg}
+		e := &explorer{sc: &scs[i], st: st, cfg: cfg, lenient: true}
 		c := e.runOnce(v.Choices, true, v.History)
 		for _, l := range c.log {
 			fmt.Println(l)
+		}
+		if c.diverged {
+			fmt.Println("REPLAY: the recorded schedule does not fit this tree any more (the code under test changed); defaults were used where it diverged")
 		}
 		for _, f := range c.fails {
 			if f.Key == v.Failure.Key {
